@@ -61,6 +61,13 @@ pub enum Op {
     /// fill whole blocks densely with small objects (size 32 + extra) keeping every `keep`-th one alive
     /// through holder objects chained from `root`: survivors and garbage share every line of a block
     DenseFill { m: u8, root: u8, n: u8, extra: u8, keep: u8 },
+    /// ConcurrentImmix: allocate until concurrent marking starts, then - while it is in progress - perform up
+    /// to 8*n SATB-relevant mutations chosen from `seed` (Hide, field overwrites, allocations of default /
+    /// large / non-moving objects that are kept reachable only from roots or from old objects)
+    MarkingWindow { m: u8, seed: u32, n: u8 },
+    /// `n` forced exhaustive GCs, each preceded by a small seeded mutation of the rooted graph
+    /// (allocate a few objects, drop a few), so that line/block state wraps are crossed with a changing heap
+    GcLoop { m: u8, n: u8, seed: u32 },
     /// SATB pattern: move the referent of the first non-null field of obj(src) into a field of obj(dst),
     /// null the original field (both through the barrier) and drop every root naming the referent
     Hide { m: u8, src: u8, dst: u8 },
